@@ -22,12 +22,8 @@ except ImportError:  # /venv/bin/python has no z3: the wheel in the tooling venv
 
 
 def load_contracts(prop):
-    import importlib
-    import glob
-    mods = []
-    for p in sorted(glob.glob(os.path.join(HERE, "contracts", prop + "*.py"))):
-        mods.append(importlib.import_module("contracts." + os.path.basename(p)[:-3]))
-    return mods
+    from pyvc import harness
+    return harness.load_contracts(prop, HERE)
 
 
 def replay(doc):
